@@ -120,6 +120,21 @@ fn first_writer(srv: &mut Srv, seed: u64, turn: usize, res: &mut CaseResult) -> 
                     res.find(&["C10", "C18"], "first-writer/hash-is-not-sha256-of-the-documented-rendering/generator_output", json!({"position": i, "frame": recvs[i]}));
                 }
             }
+            // a generator whose pipeline produces a binary value that is not UTF-8: whether such a value yields a frame at
+            // all is not this property's business, but a frame that does appear carries exactly those bytes
+            let bin: Vec<u8> = vec![0x66, 0x6f, 0x6f, 0xff, 0xfe, 0x00, 0x62, 0x61, 0x72];
+            let bsp = srv.must_append("fgb.spawn", ZERO_CONTEXT, Some(b"[0x[666f6ffffe00626172]] | each {|x| $x}"), None, None)?;
+            let bsid = bsp.id.to_string();
+            srv.wait(Duration::from_secs(3), |log| log.iter().any(|f| f.topic == "fgb.recv" && meta_str(f, "source_id") == Some(&bsid)))?;
+            let brecv: Vec<Frame> = srv.era_log().iter().filter(|f| f.topic == "fgb.recv" && meta_str(f, "source_id") == Some(&bsid)).cloned().collect();
+            res.seen("generator_binary_output", if brecv.is_empty() { "no frame" } else { "frame" });
+            for f in brecv.iter().take(1) {
+                res.count("entry_point_writes_checked", 1);
+                let stored = match &f.hash { Some(h) => srv.cas(h)?, None => None };
+                if stored.as_deref() != Some(&bin[..]) {
+                    res.find(&["C10"], "first-writer/generator-binary-output-stored-with-different-bytes", json!({"frame": f, "produced_len": bin.len(), "stored_len": stored.as_ref().map(|b| b.len())}));
+                }
+            }
             sp
         }
         "command-append" | "command-output" => {
